@@ -27,7 +27,7 @@ RULE = ('generated schemas with signing relations (chains, alternatives, redefin
 
 
 def cases(rng, tier):
-    n = 160 if tier == 'quick' else 2500
+    n = 160 if tier == 'quick' else 7000
     k = 3 if tier == 'quick' else 5
     fns = L.user_fns(L.FN_NAMES)
     for _ in range(n):
